@@ -55,14 +55,17 @@ def alloc_wrappers(u):
             continue
         pidx = {p['d']: i for i, p in enumerate(h.params)}
         rets = [strip_casts(x['e']) for x in h.nodes() if x.get('k') == 'return' and 'e' in x and not is_null_const(x['e'])]
-        if not rets or any(r.get('k') != 'ref' or r.get('dk') != 'local' for r in rets):
+        if not rets:
             continue
-        ds = {r['d'] for r in rets}
-        if len(ds) != 1:
+        # what is returned: one local (with its definitions) and / or the hook call itself
+        ds = {r['d'] for r in rets if r.get('k') == 'ref' and r.get('dk') == 'local'}
+        if len(ds) > 1 or any(not (r.get('k') == 'call' or (r.get('k') == 'ref' and r.get('dk') == 'local')) for r in rets):
             continue
-        d = next(iter(ds))
-        defs = [a['r'] for a in assignments(h) if is_ref(a['l']) and strip_casts(a['l'])['d'] == d]
-        defs += [x['init'] for x in h.locals() if x['d'] == d and 'init' in x]
+        defs = [r for r in rets if r.get('k') == 'call']
+        if ds:
+            d = next(iter(ds))
+            defs += [a['r'] for a in assignments(h) if is_ref(a['l']) and strip_casts(a['l'])['d'] == d]
+            defs += [x['init'] for x in h.locals() if x['d'] == d and 'init' in x]
         defs = [strip_casts(r) for r in defs if not is_null_const(r)]
         ks = set()
         for r in defs:
